@@ -26,6 +26,19 @@ Proof.
     try discriminate; try (destruct H; discriminate); try tauto; try lia; auto.
 Qed.
 
+(** The same decision taken while still waiting for prevotes (handlePrevoteViewUpdate). *)
+Theorem sm_prevote_commit_iff_quorum vals mask tot nil hp hn :
+  1 <= total vals -> total vals < two64 -> pow vals mask <= tot ->
+  (sm_prevote_ladder (total vals) tot (pow vals mask) nil hp hn = Ok ActBeginCommit <->
+   quorumb vals mask = true /\ nil = false).
+Proof.
+  intros H1 H2 Ht. unfold sm_prevote_ladder, quorumb. rewrite (majority_ok vals H1 H2). cbn [bind].
+  destruct (N.leb_spec (maj (total vals)) tot) as [L1|L1];
+  destruct (N.leb_spec (maj (total vals)) (pow vals mask)) as [L2|L2];
+  destruct nil; split; intros H;
+    try discriminate; try (destruct H; discriminate); try tauto; try lia; auto.
+Qed.
+
 (** Mirror kernel: the voting view is shifted to committing (and the header saved to the
     CommittedHeaderStore) iff >2/3 precommitted one non-nil block whose header is present. *)
 Theorem kernel_commit_iff_quorum vals mask tot nil hp hn :
